@@ -571,10 +571,31 @@ def clause_absolute_mask(ctx):
         for kind, cond, st in m.clears:
             comps = []
             if kind == "clear":
-                if isinstance(cond, ast.Compare) and len(cond.ops) == 1:
-                    comps.append((cond, True))
-                else:
-                    raise Undecided(f"unrecognised clear {norm(cond)}")
+                c0 = cond
+                if isinstance(c0, ast.Name):
+                    v = L.res.reaching_value(c0) if hasattr(
+                        c0, "_parent") else None
+                    if v is not None:
+                        c0 = v
+                ors = []
+
+                def flat_or(e):
+                    if isinstance(e, ast.BinOp) and isinstance(
+                            e.op, ast.BitOr):
+                        flat_or(e.left)
+                        flat_or(e.right)
+                    elif isinstance(e, ast.Call) and call_name(e) in (
+                            "np.logical_or", "numpy.logical_or"):
+                        for a_ in e.args:
+                            flat_or(a_)
+                    else:
+                        ors.append(e)
+                flat_or(c0)
+                for o_ in ors:
+                    if isinstance(o_, ast.Compare) and len(o_.ops) == 1:
+                        comps.append((o_, True))
+                    else:
+                        raise Undecided(f"unrecognised clear {norm(o_)}")
             elif kind == "and":
                 parts = []
 
